@@ -57,6 +57,34 @@ def canon_rules(s):
     return (unhx(parts[0]).decode(), mode_display(unhx(parts[1]).decode()), int(parts[2]))
 
 
+def _doc(state, guid, rules=None, v2=False):
+    d = {"version": "2.0" if v2 else "1.0", "keyGuid": guid, "hasRules": rules is not None}
+    if v2:
+        d["secureChannelEnabled"] = state != "Disabled"
+    else:
+        d["secureChannelState"] = state
+    for ep in ("wireserver", "imds", "hostga"):
+        d[ep] = (rules or {}).get(ep)
+    return d
+
+
+_R = {"wireserver": {"id": "sig1", "mode": "enforce", "content": 1}, "imds": {"id": "sig2", "mode": "audit", "content": 2},
+      "hostga": {"id": "inline-9", "mode": "enforce", "content": 3}}
+# scripted histories that run first (the shapes earlier seeded changes needed): (document | None = status failure, acquire, attest ok)
+SCRIPTS = [
+    # the state changes on a poll whose key acquisition fails; the following clean polls must still apply the redirect policy
+    [(_doc("Disabled", None), "none", True), (_doc("Wireserver", None), "http", True), (_doc("Wireserver", None), "key", True),
+     (_doc("Wireserver", "@latched"), "none", True)],
+    [(_doc("Wireserver", None), "key", False), (_doc("Wireserver", None), "key", True), (_doc("Wireserver", "@latched"), "none", True)],
+    # rules for every endpoint, then a valid document without them
+    [(_doc("Wireserver", None, _R, v2=True), "key", True), (_doc("Wireserver", "@latched", None, v2=True), "none", True),
+     (_doc("Wireserver", "@latched", {"wireserver": _R["wireserver"]}, v2=True), "none", True)],
+    # rotation, a failed status in between, disable, enable again
+    [(_doc("Wireserver", None), "key", True), (None, "none", True), (_doc("Wireserver", None), "key", True), (_doc("Disabled", "@latched"), "none", True),
+     (_doc("WireserverAndImds", None), "key", True)],
+]
+
+
 def run(chk):
     if not e2e.in_netns():
         e2e.reexec_in_netns()
@@ -68,22 +96,32 @@ def run(chk):
     if not ok:
         chk.broken.append({"kind": "harness", "name": "agent harness build", "why": out[-1500:]})
         return
-    nhist = 10 if chk.tier == "quick" else 600
+    nhist = (10 if chk.tier == "quick" else 600) + len(SCRIPTS)
     keyno = [0]
     for h in range(nhist):
+        script = SCRIPTS[h] if h < len(SCRIPTS) else None
         kp = keeper.Keeper(binp)
         m = ["kk new"]
         try:
             latched = None
             hist = []
-            nsteps = rng.rand_range(4, 14 if chk.tier == "quick" else 30)
+            nsteps = len(script) if script else rng.rand_range(4, 14 if chk.tier == "quick" else 30)
             checks = []
             model_chan = "Unknown"
             for j in range(nsteps):
                 plan = {}
                 r = rng.below(12)
+                if script:
+                    sdoc, sacq, satt = script[j]
+                    r = 0 if sdoc is None else 99
                 # what the local key directory holds for the guid the document names
-                if r == 0:
+                if script and sdoc is not None:
+                    doc = dict(sdoc)
+                    if doc.get("keyGuid") == "@latched":
+                        doc["keyGuid"] = latched
+                    plan["status"] = {"kind": "doc", "doc": doc}
+                    toks = ["D"] + keeper.doc_tokens(doc)
+                elif r == 0:
                     plan["status"] = {"kind": "http", "code": rng.pick([500, 404, 403])}
                     toks = ["F"]
                 elif r == 1:
@@ -105,25 +143,27 @@ def run(chk):
                 acq_tok = ["N"]
                 store_ok = True
                 ra = rng.below(10)
+                if script:
+                    ra = {"key": 0, "none": 9, "http": 9}[sacq]
                 if ra < 7:
                     keyno[0] += 1
-                    g = "g-%d" % keyno[0] if rng.chance(3, 4) else rng.pick(["g-a", "g-b"])
+                    g = "g-%d" % keyno[0] if (script or rng.chance(3, 4)) else rng.pick(["g-a", "g-b"])
                     kv = "%064x" % (keyno[0] * 7919)
                     plan["acquire"] = {"kind": "key", "guid": g, "key": kv}
                     acq_tok = ["V", hx(g), hx(kv)]
-                    if rng.chance(1, 10):
+                    if not script and rng.chance(1, 10):
                         store_ok = False
                         os.makedirs(os.path.join(kp.key_dir, g + ".tmp"), exist_ok=True)   # File::create of the temp file fails
                 elif ra == 7:
                     plan["acquire"] = {"kind": "raw", "body": b'{"guid": 5'}
                 else:
                     plan["acquire"] = {"kind": "http", "code": 500}
-                attest_ok = rng.chance(4, 5)
+                attest_ok = satt if script else rng.chance(4, 5)
                 plan["attest"] = {"kind": "ok"} if attest_ok else {"kind": "http", "code": rng.pick([500, 403])}
                 # sometimes corrupt / plant the local file for the guid the document names
                 docd = plan["status"].get("doc") or {}
                 gname = docd.get("keyGuid")
-                if gname and rng.chance(1, 6):
+                if gname and not script and rng.chance(1, 6):
                     p = os.path.join(kp.key_dir, gname + ".key")
                     kind = rng.pick(["garbage", "remove", "plant"])
                     if kind == "garbage":
@@ -137,6 +177,10 @@ def run(chk):
                         kv2 = "%064x" % rng.below(1 << 60)
                         json.dump({"authorizationScheme": "Azure-HMAC-SHA256", "guid": gname, "issued": "x", "key": kv2}, open(p, "w"))
                         m.append(f"kk file {hx(gname)} complete {hx(gname)} {hx(kv2)}")
+                spec_idx = None
+                if toks[0] == "D":
+                    m.append("kk docspec " + " ".join(toks[1:]))
+                    spec_idx = len(m) - 1
                 m.append("kk poll " + " ".join(toks + acq_tok + ["1" if store_ok else "0", "1" if attest_ok else "0"]))
                 ncalls = len(kp.calls)
                 st = kp.step(plan, kick=True)
@@ -144,7 +188,7 @@ def run(chk):
                 if not store_ok:
                     shutil.rmtree(os.path.join(kp.key_dir, plan["acquire"]["guid"] + ".tmp"), ignore_errors=True)
                 files = sorted(f[:-4] for f in os.listdir(kp.key_dir) if f.endswith(".key"))
-                checks.append((len(m) - 1, st, calls, files, plan))
+                checks.append((len(m) - 1, st, calls, files, plan, spec_idx))
                 if st is None:
                     break
                 latched_now = [c[1] for c in calls if c[0] == "attest" and c[2]]
@@ -153,7 +197,9 @@ def run(chk):
                 hist.append(plan["status"]["kind"] + ":" + json.dumps(plan["status"].get("doc", {}))[:80])
             outs = vlib.run_driver(m)
             chk.case(nontrivial_key=("hist", h, len(checks)))
-            for (idx, st, calls, files, plan) in checks:
+            applied = {}                # redirect policy in force, accumulated from the H2 trace
+            last_reported = None        # channel state reported at the last completed poll
+            for ci, (idx, st, calls, files, plan, spec_idx) in enumerate(checks):
                 mo = keeper.parse_state(outs[idx])
                 chk.count("iterations")
                 if st is None:
@@ -187,10 +233,36 @@ def run(chk):
                 doc = plan["status"].get("doc")
                 if plan["status"]["kind"] != "doc" and calls:
                     chk.violation("a failed status poll was followed by host key calls", d)
+                for ent in (gpol.split(",") if gpol else []):
+                    e_, _, v_ = ent.partition(":")
+                    applied[e_] = v_
                 if mo.get("done") == "1" and doc is not None:
                     st_dis = unhx(mo["chan"]).decode() == "disabled"
                     if st_dis and got["key"] != ",":
                         chk.violation("channel reported disabled but the agent still holds a key", d, observed=got["key"])
+                    # the document alone says what must hold after a complete poll (right-hand sides of the convergence theorems)
+                    sp = keeper.parse_state(outs[spec_idx]) if spec_idx is not None else None
+                    if sp and sp.get("valid") == "1":
+                        hd = dict(d, history=hist[:ci + 1][-8:])
+                        if got["chan"] != sp["state"]:
+                            chk.violation("after a complete poll the agent's channel state is not the one the document reports", hd,
+                                          expected=unhx(sp["state"]).decode(), observed=unhx(got["chan"]).decode() if got["chan"] else "")
+                        for ep in ("ws", "imds", "hostga"):
+                            # (an item whose id is empty is indistinguishable from "no item" for the id compare-and-set: host contract, DESIGN §8)
+                            if sp[ep] == "none" and got[ep] is not None and got[ep][0] != "":
+                                chk.violation("the latest document carries no rules for an endpoint but the agent still enforces rules there", hd,
+                                              expected="%s: none" % ep, observed="%s: %r" % (ep, got[ep]))
+                        if sp["state"] != last_reported:
+                            wantp = dict(x.split(":") for x in sp["policy"].split(","))
+                            if {k: applied.get(k) for k in wantp} != wantp:
+                                chk.violation("the reported channel state changed but the endpoints are not intercepted as their modes say", hd,
+                                              expected=wantp, observed=dict(applied))
+                        last_reported = sp["state"]
+                        wguid = "" if sp["guid"] == "-" else sp["guid"]
+                        attested_now = [hx(c[1] or "") for c in calls if c[0] == "attest" and c[2]]
+                        if not st_dis and wguid and got["key"].split(",")[0] not in [wguid] + attested_now:
+                            chk.violation("after a complete poll the agent does not hold the key the host names as latched", hd,
+                                          expected=unhx(wguid).decode(), observed=got["key"])
             if h == 0:
                 chk.sample({"model_ops": [x[:160] for x in m[:4]], "model_out": [o[:200] for o in outs[:4]], "agent": checks[0][1]})
         finally:
